@@ -130,6 +130,10 @@ def histories(chk, rng):
             c = dh.base_cfg(kind, classes=tuple(classes), **kw)
             dv = list(classes) + (und if kind not in ('tpld',) else [])
             rows = dh.random_rows(rng, c, n, tmax=12, dvals=dv)
+            if kind in ('part', 'mia', 'tplb') and max(classes) <= 255 and len(cases) % 2 == 0:
+                # signed data carrying undeclared NEGATIVE values (offset-removed intermediate values): they belong to no class
+                rows[0]['d'][0] = -1
+                rows[-1]['d'][-1] = -len(classes)
             cases.append({'label': f'{kind}{classes}', 'c': c, 'rows': rows, 'faults': [], 'combos': combos})
     tc = [{'c': x['c'], 'rows': x['rows'], 'faults': []} for x in cases]
     dh.explore(chk, tc, 2, 1, 0, 'histories(by value)')
